@@ -1241,6 +1241,18 @@ def _handle_upload_pack_tail(
     while pkt:
         parts = pkt.rstrip(b"\n").split(b" ")
         if protocol_version == 2:
+            if parts[0] == b"shallow-info":
+                # The server answers every request that contains shallow
+                # lines with this section, also when no deepening was asked
+                # for (a deepening request has consumed it already). It is
+                # empty then; taken for the packfile section, it would end
+                # the transfer before the first byte of the pack.
+                for update in proto.read_pkt_seq():
+                    raise GitProtocolError(
+                        f"unexpected shallow update {update!r} without deepening"
+                    )
+                pkt = proto.read_pkt_line()
+                continue
             # Check for packfile-uris response
             if parts[0] == b"packfile-uris":
                 if http_request is None:
